@@ -26,6 +26,12 @@ class Ctx:
         self.explanation = ""
         self.extra = {}
         self.broken = []         # infrastructure problems (fixture did not fire, anchor missing)
+        try:
+            import exceptions_table
+            self.exceptions = dict(exceptions_table.EXCEPTIONS.get(prop, {}))
+        except ImportError:
+            self.exceptions = {}
+        self.excepted = {}       # key -> reason (exceptions that matched a would-be violation)
 
     def rule(self, rid, desc, floor=0):
         self.rules.setdefault(rid, {"desc": desc, "instances": set(), "nontrivial": set(), "floor": floor, "sites": 0})
@@ -46,6 +52,9 @@ class Ctx:
     def violation(self, rid, key, msg, loc="", detail=None):
         """key identifies the violating construct without line numbers."""
         full_key = "%s|%s" % (rid, key)
+        if full_key in self.exceptions:
+            self.excepted[full_key] = self.exceptions[full_key]
+            return
         for v in self.violations:
             if v["key"] == full_key:
                 return
@@ -62,6 +71,11 @@ class Ctx:
             if len(r["instances"]) < r["floor"]:
                 self.violation(rid, "anchor-missing|floor", "rule %s matched %d instances, fewer than the %d confirmed by hand (anchor moved or rule blind): fail closed"
                                % (rid, len(r["instances"]), r["floor"]))
+        # an exception that no longer matches anything is stale: the table must track the code
+        for k in sorted(self.exceptions):
+            if k not in self.excepted:
+                self.violation("exceptions", "stale-exception|" + k,
+                               "exception table entry no longer matches any instance (code changed: re-review and update rules/exceptions_table.py): " + k)
         known = load_known(self.prop)
         new, suppressed = [], []
         for v in self.violations:
@@ -99,6 +113,7 @@ class Ctx:
             "samples": self.samples[:12] if self.samples else [{"note": "no sample recorded"}],
             "exhaustive": True,
             "known_findings_suppressed": [v["key"] for v, _ in suppressed],
+            "table_exceptions_applied": [{"key": k, "reason": r} for k, r in sorted(self.excepted.items())],
             "new_violations": [{"key": v["key"], "msg": v["msg"], "loc": v["loc"]} for v in new],
             "checker_cmd": "./check %s --tier %s" % (self.prop, self.tier),
             "trusted_base": ["rustc nightly type checker + MIR construction", "cargo build graph", "the rule tables under /verif/rules"],
